@@ -58,6 +58,79 @@ def c03(ctx):
     cov.update(fresh_verification_ok=fresh_ok, fresh_verification_failed=fresh_bad, exactness_ok=exact_ok,
                exactness_failed=exact_bad, exactness_skipped_symlinked_dirs=exact_skipped, exactness_problem_kinds=pk)
     cli_update_several(ctx)
+    cli_profile_exact(ctx)
+
+
+def cli_profile_exact(ctx):
+    """update completeness under the ebuild profiles: `gemato create / update -p <profile> -H <hashes>` on a repository-shaped tree
+    (files/ with sub-directories, categories, metadata, eclasses), then the independent exactness oracle and a fresh `gemato verify`"""
+    import p_repo
+    import p_c18
+    r = ctx.rng('c03profile')
+    n = done = exact = 0
+    profs = {}
+    with ET.Scratch() as sc:
+        for _ in range(160 if ctx.tier == 'quick' else 1600):
+            c = p_repo.gen_repo(r, gz_dist=True)
+            if 'junk_manifest' in c.meta:
+                continue
+            prof = r.choice(['ebuild', 'old-ebuild', 'old-ebuild'])
+            hashes = r.choice(PT.HASHSETS)
+            c.opts = (hashes, None, None, None, prof, None, None, True)
+            key = GT.order_key_for(c.meta['order_seed'])
+            b, s = sc.fresh()
+            steps = []
+            try:
+                c.tree.realise(b, s)
+                argv0 = ['-p', prof, '-H', ' '.join(hashes)]
+                rc = p_c18.run_cli(['create'] + argv0 + [b], key)
+                steps.append(['create', rc])
+                files = files_of(ET.canon_files(ET.list_real_files(b))) if rc == ['exit', 0] else None
+                rounds = [('', files)] if files is not None else []
+                if files is not None and r.random() < 0.6:
+                    # new files (also below files/<sub>/) and an update of the whole tree or of one package
+                    pk = sorted(d for d, ro in c.meta['roles'].items() if ro == 'package' and os.path.isdir(os.path.join(b, d)))
+                    for _ in range(r.randint(1, 3)):
+                        d = r.choice(pk) if pk and r.random() < 0.8 else r.choice([x for x in c.meta['dirs'] if os.path.isdir(os.path.join(b, x)) and not OX.hidden(x)])
+                        sub = r.choice(['', '', 'files', 'files/extra', 'files/extra/deep']) if d in pk else ''
+                        os.makedirs(os.path.join(b, d, sub), exist_ok=True)
+                        with open(os.path.join(b, d, sub, 'added-%d' % r.randint(0, 9)), 'wb') as f:
+                            f.write(b'new content %d' % r.randint(0, 99))
+                    up = r.choice(['', r.choice(pk) if pk else ''])
+                    rc2 = p_c18.run_cli(['update'] + argv0 + [os.path.join(b, up) if up else b], key)
+                    steps.append(['update ' + (up or '<top>'), rc2])
+                    if rc2 == ['exit', 0]:
+                        rounds.append((up, files_of(ET.canon_files(ET.list_real_files(b)))))
+                vup = rounds[-1][0] if rounds else ''
+                vr = p_c18.run_cli(['verify', os.path.join(b, vup) if vup else b], key) if steps[-1][1] == ['exit', 0] else None
+            finally:
+                sc.cleanup(b, s)
+            n += 1
+            profs[prof] = profs.get(prof, 0) + 1
+            replay = {'meta': meta_of(c), 'profile': prof, 'hashes': hashes, 'steps': steps, 'tree': PT.describe(c.tree)}
+            bad = [st for st in steps if st[1] != ['exit', 0]]
+            if bad:
+                st = bad[0]
+                if st[1][0] == 'exc' and st[1][1] != 'OSError':
+                    if not known_finding(ctx, 'C03', c, 'internal', st[1]):
+                        ctx.violation('spec', f'gemato {st[0]} -p {prof}: an internal error escaped: {st[1][1:]}', replay)
+                elif st[1][0] == 'exit':
+                    ctx.violation('spec', f'gemato {st[0]} -p {prof} on a readable tree exited {st[1][1]}', replay)
+                continue
+            done += 1
+            ok = True
+            for up, fl in rounds[-1:]:
+                problems = [p for p in OX.exactness(fl, hashes, up) if not p.startswith('hashset:') or up == '' and len(rounds) == 1]
+                if problems:
+                    ok = False
+                    replay['problems'] = problems
+                    if not known_finding(ctx, 'C03', c, 'exactness', problems):
+                        ctx.violation('spec', f'after gemato {steps[-1][0]} -p {prof} the Manifests do not describe the tree exactly: {problems[:3]}', replay)
+            if vr != ['exit', 0]:
+                ok = False
+                ctx.violation('spec', f'after gemato {steps[-1][0]} -p {prof} (exit 0) a fresh gemato verify gives {vr}', replay)
+            exact += ok
+    ctx.count('cli:profile-exact', n, n, dist={'profiles': profs, 'runs_completed': done, 'exact_and_verifying': exact})
 
 
 def cli_update_several(ctx):
@@ -627,6 +700,81 @@ def c12(ctx):
                                                                'permuted_manifests': pairs[0][1].meta['permuted']}],
               dist={'pairs_identical': same, 'pairs_differing': differ,
                     'pairs_with_permuted_manifests': sum(1 for a, b in pairs if b.meta['permuted'])})
+    cli_profile_twice(ctx)
+
+
+def manifest_stamps(b):
+    out = {}
+    for dp, dn, fn in os.walk(b):
+        for f in fn:
+            if f.startswith('Manifest'):
+                p = os.path.join(dp, f)
+                with open(p, 'rb') as fh:
+                    out[os.path.relpath(p, b)] = (fh.read(), os.stat(p).st_mtime_ns)
+    return out
+
+
+def cli_profile_twice(ctx):
+    """idempotence and canonical bytes under the ebuild profiles (sorted, compressed per-directory Manifests): `gemato create -p <profile>`,
+    then `gemato update -p <profile>` on the whole tree or one package changes no Manifest file (bytes, st_mtime_ns, set of files);
+    a second tree realised with another enumeration order gives the same bytes"""
+    import p_repo
+    import p_c18
+    r = ctx.rng('c12profile')
+    n = ok = canon = 0
+    with ET.Scratch() as sc:
+        for _ in range(90 if ctx.tier == 'quick' else 900):
+            c = p_repo.gen_repo(r, portable=True, gz_dist=True)
+            prof = r.choice(['ebuild', 'ebuild', 'old-ebuild'])
+            argv0 = ['-p', prof] + (['-c', str(r.choice([0, 64, 300]))] if r.random() < 0.3 else []) + (['-C', r.choice(['xz', 'bz2'])] if r.random() < 0.2 else [])
+            c.opts = (None, None, None, None, prof, None, None, True)
+            snaps = []
+            steps = []
+            for rnd, oseed in enumerate((c.meta['order_seed'], c.meta['order_seed'] + 1 + r.randint(0, 3))):
+                key = GT.order_key_for(oseed)
+                b, s = sc.fresh()
+                try:
+                    c.tree.realise(b, s)
+                    rc = p_c18.run_cli(['create'] + argv0 + [b], key)
+                    steps.append(['create', rc])
+                    if rc != ['exit', 0]:
+                        break
+                    s1 = manifest_stamps(b)
+                    snaps.append({p: d for p, (d, mt) in s1.items()})
+                    if rnd == 0:
+                        pk = sorted(d for d, ro in c.meta['roles'].items() if ro in ('package', 'category'))
+                        for up in ['', r.choice(pk) if pk else '']:
+                            rc2 = p_c18.run_cli(['update'] + argv0 + [os.path.join(b, up) if up else b], GT.order_key_for(oseed + rnd + 1))
+                            steps.append(['update ' + (up or '<top>'), rc2])
+                            s2 = manifest_stamps(b)
+                            probs = [f'{p}: {"created" if p not in s1 else "deleted" if p not in s2 else "bytes changed" if s1[p][0] != s2[p][0] else "rewritten (st_mtime_ns changed)"} by gemato update {up or "<top>"}'
+                                     for p in sorted(set(s1) | set(s2)) if s1.get(p) != s2.get(p)]
+                            if rc2 != ['exit', 0]:
+                                probs.append(f'gemato update {up or "<top>"} gives {rc2}')
+                            if probs:
+                                break
+                        else:
+                            probs = []
+                finally:
+                    sc.cleanup(b, s)
+            if steps[0][1] != ['exit', 0]:
+                continue
+            n += 1
+            replay = {'meta': meta_of(c), 'profile': prof, 'argv': argv0, 'steps': steps, 'tree': PT.describe(c.tree)}
+            if probs:
+                replay['problems'] = probs
+                if not known_finding(ctx, 'C12', c, 'idempotence', probs):
+                    ctx.violation('spec', f'gemato update -p {prof} right after gemato create -p {prof} is not a no-op: {probs[:3]}', replay)
+            else:
+                ok += 1
+            if len(snaps) == 2:
+                if snaps[0] != snaps[1]:
+                    diff = sorted(p for p in set(snaps[0]) | set(snaps[1]) if snaps[0].get(p) != snaps[1].get(p))
+                    replay['differing'] = diff
+                    ctx.violation('spec', f'gemato create -p {prof} (sorted): the written Manifests depend on the enumeration order: {diff[:4]}', replay)
+                else:
+                    canon += 1
+    ctx.count('cli:profile-twice', n, n, dist={'update_after_create_no_op': ok, 'identical_under_another_enumeration_order': canon})
 
 
 # --------------------------------------------------------------------------- C13
@@ -924,3 +1072,52 @@ def c13(ctx):
     ctx.count('tree:watermark', len(seconds), len(seconds), samples=[{'files': seconds[0].meta.get('files'), 'assign': seconds[0].meta.get('assign'), 'ops': seconds[0].ops}],
               dist={'runs_rule_ok': rule_ok, 'runs_rule_broken': rule_bad, 'manifests_at_watermark_plus_minus_1': boundary,
                     'runs_not_completing': len(seconds) - rule_ok - rule_bad})
+    cli_profile_format(ctx)
+
+
+def cli_profile_format(ctx):
+    """the target format given on the command line (-C) applies whether the watermark comes from -c or from the profile: sub-Manifests
+    written by `gemato create -p <ebuild profile> [-c wm] -C fmt` that reach the watermark carry exactly that format, one file per directory"""
+    import p_repo
+    import p_c18
+    r = ctx.rng('c13format')
+    n = ok = 0
+    seen = {}
+    with ET.Scratch() as sc:
+        for _ in range(120 if ctx.tier == 'quick' else 1200):
+            c = p_repo.gen_repo(r, portable=True)
+            prof = r.choice(['ebuild', 'ebuild', 'old-ebuild'])
+            fmt = r.choice(['bz2', 'xz', 'lzma', 'gz'])
+            ov = {'format': fmt}
+            argv = ['create', '-p', prof, '-C', fmt]
+            if r.random() < 0.4:
+                ov['watermark'] = r.choice([0, 64, 200, 100000])
+                argv += ['-c', str(ov['watermark'])]
+            key = GT.order_key_for(c.meta['order_seed'])
+            b, s = sc.fresh()
+            try:
+                c.tree.realise(b, s)
+                rc = p_c18.run_cli(argv + [b], key)
+                files = files_of(ET.canon_files(ET.list_real_files(b))) if rc == ['exit', 0] else None
+                vr = p_c18.run_cli(['verify', b], key) if files is not None else None
+            finally:
+                sc.cleanup(b, s)
+            if files is None:
+                continue
+            n += 1
+            c.opts = (None, None, ov.get('watermark'), fmt, prof, None, None, True)
+            replay = {'meta': meta_of(c), 'argv': argv, 'tree': PT.describe(c.tree)}
+            probs = [p for p in p_repo.check_created(c, files, prof, ov) if 'compressed' in p or 'Manifest files in' in p or 'unreadable' in p]
+            for p in files:
+                sfx = ET.suffix_of(os.path.basename(p)) if os.path.basename(p).startswith('Manifest') else None
+                if sfx:
+                    seen[sfx] = seen.get(sfx, 0) + 1
+            if probs:
+                replay['problems'] = probs
+                if not known_finding(ctx, 'C13', c, 'policy', probs):
+                    ctx.violation('spec', f'gemato {" ".join(argv)}: {probs[:3]}', replay)
+            elif vr != ['exit', 0]:
+                ctx.violation('spec', f'gemato {" ".join(argv)}: the tree written does not verify: {vr}', replay)
+            else:
+                ok += 1
+    ctx.count('cli:profile-format', n, n, dist={'runs_following_watermark_and_format': ok, 'compressed_manifests_by_format': seen})
